@@ -24,8 +24,8 @@ RULE = ('E1 (exhaustive, both tiers): simple_cycles on every digraph with <= 4 l
         'graphs, integer and string node ids) against a brute-force DFS enumeration, as sets of rotation-normalised cycles, '
         'each exactly once; Hypothesis: random digraphs with 5-9 nodes, three node-id styles, skip_nodes, copy=True/False. '
         'E2: workbooks on random digraphs of 2-7 cells over 1-3 sheets / 1-2 books; every edge is a reference in a strict '
-        'position (arithmetic, SUM over a rectangle, defined name, name of a rectangle, IF condition, first argument of '
-        'IFERROR) or in a guarded position (value branch of IF / IFS / IFERROR / IFNA, plain, through a rectangle, through a '
+        'position (arithmetic, SUM over a rectangle, defined name, name of a rectangle, IF condition, first or later '
+        'condition of IFS behind TRUE/FALSE earlier conditions, first argument of IFERROR) or in a guarded position (value branch of IF / IFS / IFERROR / IFNA, plain, through a rectangle, through a '
         'name, nested) whose guard is a constant, a guard cell or a comparison of a non-circular cell, selected or not; plus '
         'observers (ISERROR, IFERROR, +1, SUM) and upstream constants. Each workbook is built through from_dict (2-3 '
         'insertion orders) and/or as an xlsx file written with openpyxl (sheet order permuted) and calculated with '
@@ -57,6 +57,7 @@ FLOORS = {
     'path:dict': ('count', {'quick': 100, 'thorough': 2000}),
     'edge:name': ('count', {'quick': 20, 'thorough': 400}),
     'edge:range': ('count', {'quick': 50, 'thorough': 1000}),
+    'edge:ifs-late-cond': ('count', {'quick': 100, 'thorough': 2000}),
     'hashseeds:4': ('count', {'quick': 1, 'thorough': 8}),
 }
 
@@ -326,6 +327,14 @@ def show(v):
     return repr(v)
 
 
+# A cell on an all-strict cycle whose circular reference sits in a later IFS condition behind a TRUE one, in a
+# workbook where a second (shorter / rectangle) circular cycle feeds it: HEAD may compute it (31 instead of #CIRC!)
+# before its own mark arrives -- same family as F-C10-2 (ordinary value on an unavoidable cycle; for IFERROR on
+# strict cycles it already is counted there).  Reported under F-C10-2's tag until a separate finding is listed;
+# set to 'late-cond-race' to give it its own signature.
+RACE_SIG_TAG = 'impure'
+
+
 def judge(case, an, obs, where):
     fails = []
     for k in an['wb'].keys:
@@ -339,7 +348,8 @@ def judge(case, an, obs, where):
             continue
         if cls_ == 'circ':
             if got != CIRC:
-                fails.append(('mark|on-active-cycle:%s|%s' % (sub, g), '%s %s lies on a cycle of strict/selected references but is %s, expected #CIRC!' % (where, nk, show(got))))
+                fails.append(('mark|on-active-cycle:%s|%s' % (RACE_SIG_TAG if sub == 'late-cond-race' else sub, g),
+                              '%s %s lies on a cycle of strict/selected references (%s) but is %s, expected #CIRC!' % (where, nk, sub, show(got))))
         elif cls_ == 'err':
             if not isinstance(got, Err):
                 fails.append(('mark|%s|%s' % (sub, g), '%s %s depends on a circular cell through selected branches but is %s, expected an error value' % (where, nk, show(got))))
@@ -370,7 +380,7 @@ def order_tag(an, diff_keys, pairs=()):
         return 'rect-shared'
     byname = {key_of(k): k for k in an['wb'].keys}
     subs = {(an['info'][byname[n]]['cls'], an['info'][byname[n]]['sub']) for n in diff_keys if n in byname}
-    if subs and subs <= {('circ', 'impure'), ('unk', 'after-impure')}:
+    if subs and subs <= {('circ', 'impure'), ('circ', 'late-cond-race'), ('unk', 'after-impure')}:
         return 'impure-cycle'
     if subs and {c for c, _ in subs} <= {'either', 'unk'}:
         return 'undetermined-cells'
@@ -392,7 +402,7 @@ def wb_labels(case, an, obs_list):
     vias = set()
     for i, lst in an['occ'].items():
         for (t, guarded, live, via, gk, ab, rect, ig) in lst:
-            if t in an['node_cycles'] and (an['node_cycles'][t] or an['node_cycles'][i]):
+            if t in an['node_cycles'] and (an['node_cycles'][t] or (an['node_cycles'][i] and not via.startswith('ifs-'))):
                 vias.add(('edge:%s' % ('name' if via.startswith('name') else via)))
                 if via in ('range', 'name-range'):
                     vias.add('edge:range')
@@ -622,6 +632,12 @@ def _fixed_wbs():
     out.append(wb([[1, 1, ['+', ['N', G.BOOK, 'NM_A'], 1]], [1, 2, ['+', Rr(1, 1), 1]], [1, 3, 2]],
                   names=[[G.BOOK, 'NM_A', Rr(1, 2)]], paths=('file',)))
     out.append(wb([[1, 1, ['+', ['IF', False, ['SUM', ['RG', S[0], S[1], 1, 2, 1, 3]], 0], 1]], [1, 2, ['+', Rr(1, 1), 2]], [1, 3, 5]]))
+    # a cycle through a LATER condition of IFS is strict, whether or not an earlier condition is TRUE
+    for a1 in (1, 0):
+        out.append(wb([[1, 1, a1], [2, 1, ['IFS', ['>', Rr(1, 1), 0], 5, ['>', Rr(3, 1), 0], 3]], [3, 1, ['+', Rr(2, 1), 1]],
+                       [4, 1, ['+', Rr(3, 1), Rr(3, 1)]], [5, 1, 7]]))
+    out.append(wb([[7, 1, True], [1, 1, ['+', 100, ['IFS', False, 1, Rr(7, 1), 2, Rr(1, 2), 3, True, 4]]], [1, 2, ['+', Rr(1, 1), 1]],
+                   [1, 3, ['ISERROR', Rr(1, 2)]]]))
     return out
 
 
